@@ -390,6 +390,60 @@ Plan shrink_plan(const Plan &orig, const std::string &sig, bool scope, long budg
     // operations of each task (faults and environment answers travel with their op)
     for (size_t t = 0; t < p.tasks.size(); t++)
       progress |= ddmin_vec<Op>(c, p, [t](Plan &x) -> std::vector<Op> & { return x.tasks[t].ops; });
+    // world
+    {
+      Plan q = p;
+      if (q.world.mem_policy != 0) {
+        q.world.mem_policy = 0;
+        if (still_fails(c, q)) {
+          p = q;
+          progress = true;
+        }
+      }
+      q = p;
+      if (q.world.behind != 0) {
+        q.world.behind = 0;
+        if (still_fails(c, q)) {
+          p = q;
+          progress = true;
+        }
+      }
+      for (size_t f = p.world.files.size(); f-- > 0;) {
+        q = p;
+        q.world.files.erase(q.world.files.begin() + (long)f);
+        if (still_fails(c, q)) {
+          p = q;
+          progress = true;
+          continue;
+        }
+        // shrink the file's lines
+        std::vector<std::string> ls = split_lines(p.world.files[f].data);
+        if (ls.size() > 1) {
+          size_t chunk = ls.size() / 2;
+          while (chunk >= 1) {
+            bool rem = false;
+            for (size_t st = 0; st < ls.size();) {
+              std::vector<std::string> l2 = ls;
+              l2.erase(l2.begin() + (long)st, l2.begin() + (long)std::min(l2.size(), st + chunk));
+              q = p;
+              std::string d;
+              for (auto &l : l2) d += l + "\n";
+              q.world.files[f].data = d;
+              if (still_fails(c, q)) {
+                p = q;
+                ls = l2;
+                rem = progress = true;
+              } else
+                st += chunk;
+            }
+            if (!rem) {
+              if (chunk == 1) break;
+              chunk /= 2;
+            }
+          }
+        }
+      }
+    }
     // schedule
     if (!p.order.empty()) {
       Plan q = p;
@@ -448,60 +502,6 @@ Plan shrink_plan(const Plan &orig, const std::string &sig, bool scope, long budg
           if (!changed) break;
         }
       }
-    // world
-    {
-      Plan q = p;
-      if (q.world.mem_policy != 0) {
-        q.world.mem_policy = 0;
-        if (still_fails(c, q)) {
-          p = q;
-          progress = true;
-        }
-      }
-      q = p;
-      if (q.world.behind != 0) {
-        q.world.behind = 0;
-        if (still_fails(c, q)) {
-          p = q;
-          progress = true;
-        }
-      }
-      for (size_t f = p.world.files.size(); f-- > 0;) {
-        q = p;
-        q.world.files.erase(q.world.files.begin() + (long)f);
-        if (still_fails(c, q)) {
-          p = q;
-          progress = true;
-          continue;
-        }
-        // shrink the file's lines
-        std::vector<std::string> ls = split_lines(p.world.files[f].data);
-        if (ls.size() > 1) {
-          size_t chunk = ls.size() / 2;
-          while (chunk >= 1) {
-            bool rem = false;
-            for (size_t st = 0; st < ls.size();) {
-              std::vector<std::string> l2 = ls;
-              l2.erase(l2.begin() + (long)st, l2.begin() + (long)std::min(l2.size(), st + chunk));
-              q = p;
-              std::string d;
-              for (auto &l : l2) d += l + "\n";
-              q.world.files[f].data = d;
-              if (still_fails(c, q)) {
-                p = q;
-                ls = l2;
-                rem = progress = true;
-              } else
-                st += chunk;
-            }
-            if (!rem) {
-              if (chunk == 1) break;
-              chunk /= 2;
-            }
-          }
-        }
-      }
-    }
   }
   if (execs) *execs = c.execs;
   return p;
